@@ -5,6 +5,7 @@
   sample type, every wrap predicate, every acceptance test and every input.
 -/
 import Proofs.Lemmas.Cycles
+import Proofs.Lemmas.CyclesIdx
 
 namespace C12
 open Cycles
@@ -110,11 +111,37 @@ theorem cv_label_block (w : α → α → Bool) (acc : List α → Bool) (xs : L
   rw [hseg, paint_append, paint_cons]
   simp [labelInt, List.append_assoc]
 
+/-- **Refinement**: the code-shaped model (`cvIdx`: wrap indices `where(|diff|>step)+1`, boundary
+    list `0 :: inds ++ [n]`, segment loop with running counter, slice assignment `cycles[a:b] = count`)
+    computes exactly the painted labelled partition. All theorems above therefore hold of the
+    code-shaped model that the correspondence check runs against the implementation. -/
+theorem code_model_refines (w : α → α → Bool) (acc : List α → Bool) (xs : List α) :
+    cvIdx w acc xs = paint (cvSegs w acc xs) := cvIdx_eq_paint w acc xs
+
+/-- Full cover, stated for the code-shaped model: at least one wrap position found,
+    all cycles requested ⇒ every sample label is ≥ 0. -/
+theorem code_model_all_cover (w : α → α → Bool) (xs : List α) (hw : wrapIdx w xs 0 ≠ []) :
+    ∀ l ∈ cvIdx w (fun _ => true) xs, 0 ≤ l := by
+  have hx : xs ≠ [] := by intro h; subst h; simp [wrapIdx] at hw
+  have h2 : 2 ≤ (runsBy w xs).length := by
+    have : ¬ (runsBy w xs).length ≤ 1 := fun h => hw ((wrapIdx_nil_iff w xs hx).mpr h)
+    omega
+  rw [code_model_refines]
+  exact cv_all_cover w xs h2
+
+/-- No wrap position found ⇒ every label is −1 (code-shaped model). -/
+theorem code_model_no_wrap (w : α → α → Bool) (acc : List α → Bool) (xs : List α)
+    (hw : wrapIdx w xs 0 = []) : ∀ l ∈ cvIdx w acc xs, l = -1 := by
+  intro l hl
+  simp only [cvIdx, hw, ite_true] at hl
+  exact (List.mem_replicate.mp hl).2
+
 /-! Non-vacuity: a concrete series with two wraps, three cycles, all hypotheses met
     (integer samples; the theorems are generic in the sample type). -/
 def wInt (a b : Int) : Bool := decide (4 < (b - a).natAbs)
 example : paint (cvSegs wInt (fun _ => true) [1, 3, 6, 0, 2, 6, 1, 4]) = [0, 0, 0, 1, 1, 1, 2, 2] := by decide
 example : 2 ≤ (runsBy wInt [1, 3, 6, 0, 2, 6, 1, 4]).length := by decide
+example : cvIdx wInt (fun _ => true) [1, 3, 6, 0, 2, 6, 1, 4] = [0, 0, 0, 1, 1, 1, 2, 2] := by decide
 example : (2 : Nat) < nCycles (cvSegs wInt (fun _ => true) [1, 3, 6, 0, 2, 6, 1, 4]) := by decide
 
 end C12
